@@ -17,7 +17,7 @@ import ast
 from typing import Dict, List, Optional, Set
 
 from ..index import AnalysisError, Repo
-from .common import MUTATOR_METHODS
+from .common import MUTATOR_METHODS, writers_of
 
 CACHE_DECOS = {'lru_cache', 'cache', 'cached_property', 'cached', 'memoize', 'memoized', 'memo'}
 
@@ -308,6 +308,68 @@ def run(chk):
                              f'`for {ast.unparse(n.target)} in {ast.unparse(it)[:50]}` {order_sensitive}: the order of a set of seats / names depends on the '
                              f'process\'s hash seed, so two processes (table manager and a client) or two runs can compute different results (e.g. a different '
                              f'declarer when both partners named the denomination in the same round)')
+        # ---- M6: a value memoised in an attribute must be reset by everything that changes what it was computed from ----------------
+        for c in mod.classes.values():
+            if c.is_enum or c.is_namedtuple:
+                continue
+            hierarchy = [k for m2 in repo.modules.values() for k in m2.classes.values() if c in repo.mro(k) or k in repo.mro(c)]
+
+            def find_method(name, start=c):
+                for k in repo.mro(start):
+                    if name in k.methods:
+                        return k, k.methods[name]
+                return None, None
+
+            def reads_of(fn_, depth=3, seen=()):
+                out = set()
+                for x in ast.walk(fn_):
+                    if isinstance(x, ast.Attribute) and isinstance(x.value, ast.Name) and x.value.id == 'self' and isinstance(x.ctx, ast.Load):
+                        out.add(x.attr)
+                    if depth > 0 and isinstance(x, ast.Call) and isinstance(x.func, ast.Attribute):
+                        v = x.func.value
+                        if (isinstance(v, ast.Name) and v.id == 'self') or (isinstance(v, ast.Call) and isinstance(v.func, ast.Name) and v.func.id == 'super'):
+                            k2, f2 = find_method(x.func.attr)
+                            if f2 is not None and f2.name not in seen:
+                                out |= reads_of(f2, depth - 1, seen + (f2.name,))
+                return out
+            for mname, fn in c.methods.items():
+                for n in ast.walk(fn):
+                    if not (isinstance(n, ast.If) and isinstance(n.test, ast.Compare) and len(n.test.ops) == 1 and isinstance(n.test.ops[0], ast.Is)
+                            and isinstance(n.test.comparators[0], ast.Constant) and n.test.comparators[0].value is None
+                            and isinstance(n.test.left, ast.Attribute) and isinstance(n.test.left.value, ast.Name) and n.test.left.value.id == 'self'):
+                        continue
+                    view = n.test.left.attr
+                    fills = [x for x in n.body if isinstance(x, ast.Assign) and len(x.targets) == 1 and isinstance(x.targets[0], ast.Attribute)
+                             and isinstance(x.targets[0].value, ast.Name) and x.targets[0].value.id == 'self' and x.targets[0].attr == view]
+                    returns = any(isinstance(x, ast.Return) and isinstance(x.value, ast.Attribute) and isinstance(x.value.value, ast.Name)
+                                  and x.value.value.id == 'self' and x.value.attr == view for x in ast.walk(fn))
+                    if not fills or not returns:
+                        continue
+                    tmp = ast.FunctionDef(name='_', args=fn.args, body=[ast.Expr(fills[0].value)], decorator_list=[])
+                    sources = reads_of(tmp) - {view}
+                    # writers of the sources anywhere in the hierarchy, outside constructors
+                    for k in hierarchy:
+                        for wname, wfn in k.methods.items():
+                            if wname == '__init__':
+                                continue
+                            written = {a for a, _ in writers_of(wfn, sources)}
+                            if not written:
+                                continue
+
+                            def resets_unconditionally(f_):
+                                return any(isinstance(x, ast.Assign) and any(isinstance(t, ast.Attribute) and isinstance(t.value, ast.Name) and t.value.id == 'self'
+                                                                               and t.attr == view for t in x.targets) for x in f_.body)
+                            if resets_unconditionally(wfn):
+                                continue
+                            callers = [(k2, f2) for k2 in hierarchy for f2 in k2.methods.values() if f2 is not wfn and any(
+                                isinstance(x, ast.Call) and isinstance(x.func, ast.Attribute) and x.func.attr == wname for x in ast.walk(f2))]
+                            relevant = [(k2, f2) for k2, f2 in callers if c in repo.mro(k2) or k2 is c]
+                            if relevant and all(resets_unconditionally(f2) for _, f2 in relevant):
+                                continue
+                            chk.fail(rule, repo.where(mod, fills[0]), f'{c.name}.{mname}', f'memo `self.{view}` in {c.name}.{mname} not reset by {k.name}.{wname}',
+                                     f'{c.name}.{mname} keeps its result in `self.{view}` (computed from {sorted(sources)}), but {k.name}.{wname} changes '
+                                     f'{sorted(written)} without resetting it on every path: after another seat plays, the stale set is handed out '
+                                     f'(e.g. the whole hand while the seat must follow suit)')
         # ---- M3: mutable default arguments mutated in the body ------------------------------------------------------------------
         for m, c, fn in repo.all_functions():
             if m is not mod:
